@@ -10,11 +10,21 @@ From Verif Require Topk TopkProofs.
    wrappers and distributive aggregations whose parameter does not read the
    storage: no binary expression (a join needs the whole data set), no
    non-distributive aggregation, no aggregation whose parameter would be
-   evaluated per partition, no literal. *)
+   evaluated per partition, no literal, no absent() / absent_over_time() and no function
+   called without its vector argument. *)
 Theorem C10_remote_subqueries_pushable : forall n e,
   plain e = true -> remotes_pushable (opt_distribute n e) = true.
 Proof. exact distributed_remotes_pushable. Qed.
 Print Assumptions C10_remote_subqueries_pushable.
+
+(* absent() is answered by the coordinator over the distributed operand, and a date function without
+   its argument is not distributed at all (the pinned tree pushed both down whole: repaired by 0f854f7) *)
+Example C10_global_calls_stay_on_the_coordinator :
+  let v := EVec (mkVS [] 0 0 None None 0) in
+  Dist.opt_distribute 2 (ECall "absent" [v]) = ECall "absent" [ECoalesce [ERemote 0 v; ERemote 1 v]] /\
+  Dist.opt_distribute 2 (ECall "year" []) = ECall "year" [] /\
+  Dist.opt_distribute 2 (ECall "abs" [v]) = ECoalesce [ERemote 0 (ECall "abs" [v]); ERemote 1 (ECall "abs" [v])].
+Proof. cbv zeta. repeat split; vm_compute; reflexivity. Qed.
 
 (* Pushing an aggregation down is sound for every associative, commutative
    reduction with a unit (sum; min/max/group on values extended with a unit;
